@@ -305,6 +305,23 @@ func TestVerifC15Enc(t *testing.T) {
 		id++
 	}
 
+	// ---- deep chains through functions with multi-byte identifiers, under
+	// counter names of every length 1..64: a cut at a fixed byte offset visits
+	// every byte of a frame line, inside 2-, 3- and 4-byte runes too
+	if len(in.Chains) > 0 {
+		same := []string{"x.u3", "x.u2", "x.u4", "x.um"}
+		alt := []string{"x.u3", "y.x.u4", "x.um", "y.x.u2", "x.u4", "y.x.u3"}
+		for l := 1; l <= 64; l++ {
+			for v, pool := range [][]string{same, alt} {
+				c := chainIn{ID: 1650000 + 2*l + v, Prefix: strings.Repeat("p", l), Src: "utf8"}
+				for n := 0; n < 90; n++ {
+					c.Fns = append(c.Fns, pool[(n+l*v)%len(pool)])
+				}
+				in.Chains = append(in.Chains, c)
+			}
+		}
+	}
+
 	type scKey struct {
 		prefix string
 		depth  int
